@@ -106,7 +106,7 @@ theorem WReach.winv {w : World} (h : WReach w) : WInv w := by
     `Reachable` (so all single-manager theorems apply to it) -/
 theorem WReach.reachable {w : World} (h : WReach w) : ∀ k, Reachable (w.mgrs k) := by
   induction h with
-  | init => intro k; exact Reachable.init
+  | init => intro k; exact Reachable.init _
   | prog t p _ ih =>
     intro k
     simp only [World.runProg]
